@@ -715,6 +715,8 @@ def main(tier):
     rep.attempt(probepure.check_trunc_cmp, rep, llir.library('default'))
     rep.attempt(probepure.check_zero_run_siblings, rep, llir.library('default'))
     rep.attempt(probepure.check_refill_in_loop, rep, llir.library('default'))
+    import c19 as _c19b
+    rep.attempt(_c19b.check_null_skip, rep, llir.library('default'))      # gzip members with optional fields are valid streams
     import acct, c19, llir, c17
     rep.attempt(c17.check_dict_tail, rep, llir.library('default'))
     rep.attempt(acct.check, rep, 'i', 50, c19.field_offsets('struct isal_zstream', ['next_in', 'avail_in', 'total_in', 'next_out', 'avail_out', 'total_out']), c19.field_offsets('struct inflate_state', ['next_in', 'avail_in', 'next_out', 'avail_out', 'total_out']), llir.library('default'))
